@@ -288,6 +288,32 @@ def s_assertinc(rng, depth, variant=None):
     return scn
 
 
+def s_indirect(rng, depth, variant=None):
+    """`f(a, c, b){ if (c < k) {…} else {…}; require(a == c + 1); x = a; y = b; }`: the two paths of one call store the SAME terms and
+    differ only in a constraint on `c`, which restricts the stored `a` indirectly; a second scalar slot is written afterwards.
+    The invariants fail only for values of x from one side of the branch (x == lo for c < k, x == hi for c ≥ k).
+    Variants ≥ 2 put the `require` BEFORE the branch: then the branch condition is appended to the path after `a == c + 1`, and
+    `Path.related[]` (filled at append time) only links a condition to EARLIER ones — the slice of {a, b} misses `c < k`."""
+    v = rng.randrange(4) if variant is None else variant
+    k = rng.choice([5, 10])
+    lo, hi = rng.randrange(1, k + 1), rng.choice([100, 1 << 128, k + 7])
+    a, c, b = asm.calldata_arg(0), asm.calldata_arg(1), asm.calldata_arg(2)
+    branch = asm.if_then(c + [("push", k), "SWAP1", "LT"], [("push", 1), ("push", 0x40), "MSTORE"], [("push", 2), ("push", 0x40), "MSTORE"])
+    tie = require(a + c + [1, "ADD"] + ["EQ"])
+    stores = a + [0, "SSTORE"] + b + [1, "SSTORE"] if v % 2 == 0 else b + [1, "SSTORE"] + a + [0, "SSTORE"] + b + [2, "SSTORE"]
+    f = TFn("f(uint256 a, uint256 c, uint256 b)", branch + tie + stores if v < 2 else tie + branch + stores,
+            domains=[[lo, hi], [lo - 1, hi - 1], [0, 1]])
+    tgt = Target("Indirect", [f, TFn("get()", asm.return_word([0, "SLOAD"]), mutability="view"),
+                              TFn("gety()", asm.return_word([1, "SLOAD"]), mutability="view")])
+    get = call_view(FIRST_CREATED, GET)
+    gety = call_view(FIRST_CREATED, asm.selector("gety()"))
+    invs = [Inv("invariant_x_ne_lo", fail_if(asm.eq_const(get, lo))), Inv("invariant_x_ne_hi", fail_if(asm.eq_const(get, hi), "flag")),
+            Inv("invariant_lo_with_y1", fail_if(asm.eq_const(get, lo) + asm.eq_const(gety, 1) + ["AND"])),
+            Inv("invariant_x_zero_or_y", fail_if(asm.eq_const(get, hi + 1)))]
+    return Scenario("InvIndirect", [tgt], invs, kind="stored-value-constrained-through-branched-argument:"
+                    + ("branch-before-tie" if v < 2 else "tie-before-branch"))
+
+
 def s_alias(rng, depth, variant=None):
     """a symbolic address kept in storage (`set(address a)`) and CALLed by two different target functions started from the same
     frontier state (`poke()` sends 0x01, `poke2()` sends 0x02, the first returned word goes to `last`); candidate accounts: A
@@ -359,7 +385,7 @@ def s_symmap(rng, depth, variant=None):
 
 
 TEMPLATES = [s_counter, s_counter, s_setter, s_toggle, s_token, s_token, s_owned, s_owned, s_clock, s_two, s_two, s_two, s_boom,
-             s_symstore, s_symmap, s_assertinc, s_alias]
+             s_symstore, s_symmap, s_assertinc, s_alias, s_indirect]
 
 
 # ------------------------------------------------------------------------------------------------ halmos output
@@ -728,7 +754,7 @@ def make_item(seed, tmpl_idx, depth, mode=None, variant=None):
     tmpl = TEMPLATES[tmpl_idx % len(TEMPLATES)]
     if mode:
         scn = tmpl(rng, depth, mode)
-    elif variant is not None and tmpl in (s_token, s_owned, s_two, s_symstore, s_symmap, s_assertinc, s_alias):
+    elif variant is not None and tmpl in (s_token, s_owned, s_two, s_symstore, s_symmap, s_assertinc, s_alias, s_indirect):
         scn = tmpl(rng, depth, variant)
     else:
         scn = tmpl(rng, depth)
@@ -762,6 +788,9 @@ def correspond(ctx):
     # directed: target functions with an assertion-failure path and a mutating path, called repeatedly (probe reports awaited)
     for v in range(4):
         items.append(make_item(5000 + v, TEMPLATES.index(s_assertinc), 2 + v % 2, variant=v))
+    # directed: two post-states of one call with identical storage terms, told apart only by a constraint on a branched-on argument
+    for v in range(4):
+        items.append(make_item(7000 + v, TEMPLATES.index(s_indirect), 1 + v % 2, variant=v))
     # directed: a storage-held symbolic address called by two target functions from the same frontier state
     for v in range(4):
         items.append(make_item(6000 + v, TEMPLATES.index(s_alias), 2, variant=v))
